@@ -286,10 +286,16 @@ def load_findings(prop):
     if not p.exists():
         return []
     data = json.loads(p.read_text())
-    res = [f for f in data.get("findings", []) if f.get("property") == prop]
-    # entries proposed while a check is being built (merged into known_findings.json on integration)
+    byid = {}
+    for f in data.get("findings", []):
+        if f.get("property") == prop:
+            byid[f.get("id", len(byid))] = f
+    # entries proposed / updated while a check is being built override the merged copy with the same id
     for extra in sorted((VERIF / "known_findings.d").glob("*.json")) if (VERIF / "known_findings.d").exists() else []:
-        res += [f for f in json.loads(extra.read_text()).get("findings", []) if f.get("property") == prop]
+        for f in json.loads(extra.read_text()).get("findings", []):
+            if f.get("property") == prop:
+                byid[f.get("id", len(byid))] = f
+    res = list(byid.values())
     return res
 
 
